@@ -19,6 +19,7 @@ from nutree.common import DictWrapper
 from nutree.fs import FileSystemEntry, FileSystemTree
 
 LABELS = ["a", "b", "c", "d", "e", "a1", "ä", "名☃", 'q"t', "b\\s", "n\nl", " sp ", ""]
+SURROGATE_LABEL = "u\udc80x"
 PERSON_LABELS = {"a", "c", "e", "ä"}
 
 
@@ -356,6 +357,13 @@ def save_tree(tree, profile, cfg, tmpdir, tag):
         kw["mapper"] = m
     if cfg.get("meta"):
         kw["meta"] = dict(cfg["meta"])
+        if cfg.get("presave"):
+            # an earlier save() of the same tree that was given the SAME meta dict object and explicit maps:
+            # nothing of it may leak into the document written below
+            pk = dict(kw)
+            pk["key_map"] = {"data_id": "i", "str": "s", "kind": "k"}
+            pk["value_map"] = resolve_value_map(["kind"], tree, profile) if profile.typed else {"kind": ["zz"]}
+            tree.save(io.StringIO(), **pk)
     target = cfg.get("target", "str")
     path = os.path.join(tmpdir, f"t{tag}.nutree")
     comp = cfg.get("compression", False)
@@ -364,10 +372,11 @@ def save_tree(tree, profile, cfg, tmpdir, tag):
             kw["compression"] = comp
         tree.save(path if target == "str" else Path(path), **kw)
         return ("path", path, kw)
-    if target == "file":
-        with open(path, "w", encoding="utf8") as fp:
+    if target in ("file", "file-ascii"):
+        # an open text stream of the caller's choosing: also one that can only encode ASCII
+        with open(path, "w", encoding="utf8" if target == "file" else "ascii") as fp:
             tree.save(fp, **kw)
-        return ("file", path, kw)
+        return (target, path, kw)
     buf = io.StringIO()
     tree.save(buf, **kw)
     return ("text", buf.getvalue(), kw)
@@ -383,8 +392,8 @@ def load_tree(profile, src, src_tree, cfg, file_meta):
     target = cfg.get("target", "str")
     if kind == "path":
         return cls.load(val if target == "str" else Path(val), **kw)
-    if kind == "file":
-        with open(val, "r", encoding="utf8") as fp:
+    if kind in ("file", "file-ascii"):
+        with open(val, "r", encoding="utf8" if kind == "file" else "ascii") as fp:
             return cls.load(fp, **kw)
     return cls.load(io.StringIO(val), **kw)
 
@@ -428,13 +437,15 @@ def config(draw, profile_name):
     elif vm == "custom":
         cand = p.value_map_candidates()
         cfg["value_map"] = draw(st.lists(st.sampled_from(cand), min_size=1, max_size=len(cand), unique=True)) if cand else True
-    cfg["target"] = draw(st.sampled_from(["str", "path", "file", "stringio"]))
+    cfg["target"] = draw(st.sampled_from(["str", "path", "file", "stringio", "file-ascii"]))
     if cfg["target"] in ("str", "path"):
         cfg["compression"] = draw(st.sampled_from(COMPRESSIONS))
         if cfg["compression"] is False and draw(st.booleans()):
             cfg["pass_compression"] = True
     if draw(st.booleans()):
         cfg["meta"] = draw(st.sampled_from([{"foo": "bar"}, {"n": 1, "ünï": "cödé"}, {"x": [1, 2], "y": None}]))
+        if draw(st.sampled_from([0, 0, 1])):
+            cfg["presave"] = True
     return cfg
 
 
@@ -458,4 +469,17 @@ def tree_spec(draw, profile_name, max_nodes=14):
                     prune(n[1])
 
         prune(spec)
+    elif spec and draw(st.sampled_from([0, 0, 0, 1])):
+        # a string that UTF-8 cannot encode (lone surrogate, as produced by os.fsdecode for undecodable file names)
+        flat = []
+
+        def collect(nodes):
+            for n in nodes:
+                flat.append(n)
+                collect(n[1])
+
+        collect(spec)
+        n = flat[draw(st.integers(0, len(flat) - 1))]
+        if not (len(n) > 2 and n[2] and "id" in n[2]):
+            n[0] = SURROGATE_LABEL
     return spec
